@@ -4,13 +4,13 @@ CONSTANTS
   FullNames = {"x"}
   FileTok = {"f1"}
   EnvTok = {"e1", "e2"}
-  ExecTok = {"p1", "p2"}
+  ExecTok = {"p1"}
   SbomTok = {"s1"}
   Formats <- MCFormats2
-  MdVals = {"1", "2"}
+  MdVals = {"1"}
   Causes = {"c1"}
-  Flags <- FlagsAll
-  TraitTypes <- TraitTypesAll
+  Flags <- FlagsQuick
+  TraitTypes <- TraitTypesQuick
   Shapes <- MCShapes4
   EmitTR = TRUE
 VIEW View
